@@ -225,6 +225,55 @@ example :
       resolveAt inflate 1 (fun _ => .error .key) (writePack deflate H recs).1 3 29 = .ok (3, [7, 2, 3, 4, 9]) := by
   refine ⟨by decide, by decide +kernel, by decide +kernel, by decide +kernel⟩
 
+/-! ## 4b. the CRC range of an entry does not depend on how the reader slices its input -/
+
+/-- **Slice-size independence of `read_zlib_chunks_at`.**  Whatever the slice size `B > 0` — in particular
+when the zlib stream ends *exactly* at the end of a slice, `L = k·B` — the bytes fed to the CRC (and kept as
+`comp_chunks` with `include_comp`) are exactly the `L` bytes of the stream and the reported end offset is
+`L`; at least one byte must follow the stream (the pack trailer does). -/
+theorem crc_range_independent_of_slicing (B L : Nat) (buf : Bytes) (hB : 0 < B) (hL : L < buf.length) :
+    zlibWalkAt 1 B L buf (L + 1) 0 [] = some (buf.take L, L) :=
+  zlibWalkAt_spec B L buf hB hL (L + 1) 0 [] (Nat.zero_le _) (Nat.le_refl _) rfl
+
+/-- The same for the code as it is: its loop-ending condition and its slice size (`_ZLIB_BUFSIZE`) are read
+from the source.  A loop that ends on `decomp_obj.eof` makes `Gen.Pack.zlibAtEndsOnUnused = 0` and this proof
+fail. -/
+theorem crc_range_at_default_slice (L : Nat) (buf : Bytes) (hL : L < buf.length) :
+    zlibWalkAt Gen.Pack.zlibAtEndsOnUnused Gen.Pack.zlibBufSize L buf (L + 1) 0 [] = some (buf.take L, L) :=
+  crc_range_independent_of_slicing Gen.Pack.zlibBufSize L buf (by decide) hL
+
+/-- With the entry header in front (its CRC is taken byte by byte in `take_msb_bytes_at`): the CRC input of the
+entry at `off`, whose zlib stream starts at `s0` and is `L` bytes long, is exactly `pack[off : s0 + L]` — the
+range up to the next entry's offset — for every slice size. -/
+theorem entry_crc_range (B L off s0 : Nat) (pack : Bytes) (hB : 0 < B) (hoff : off ≤ s0) (hL : s0 + L < pack.length) :
+    ∃ fed, zlibWalkAt 1 B L (pack.drop s0) (L + 1) 0 [] = some (fed, L) ∧
+      slice pack off (s0 - off) ++ fed = slice pack off (s0 + L - off) := by
+  refine ⟨(pack.drop s0).take L, crc_range_independent_of_slicing B L _ hB (by simp; omega), ?_⟩
+  simp only [slice]
+  have e : s0 + L - off = (s0 - off) + L := by omega
+  rw [e, List.take_add, List.drop_drop]
+  congr 3
+  omega
+
+/-- **Negation witness for the `eof` variant** (a seeded change that slipped past the first version of this
+check): a loop that ends on `decomp_obj.eof`, with a 4-byte stream read in 4-byte slices, feeds *nothing* of the
+last slice to the CRC (`left = 0`, and Python's `add[:-0]` is empty) while still reporting the right end. -/
+theorem crc_eof_variant_counterexample :
+    zlibWalkAt 0 4 4 [1, 2, 3, 4, 9] 5 0 [] = some ([], 4) ∧
+    zlibWalkAt 1 4 4 [1, 2, 3, 4, 9] 5 0 [] = some ([1, 2, 3, 4], 4) := by decide
+
+/-- **Chunking independence of the streaming reader `read_zlib_chunks`.**  However `read_some` cuts the data
+into non-empty chunks (also when a chunk ends exactly with the stream), the CRC input / `comp_chunks` are
+exactly the `L` stream bytes and the `unused` bytes handed back are the non-empty continuation. -/
+theorem stream_walk_independent_of_chunking (L : Nat) (chunks : List Bytes)
+    (hne : ∀ c ∈ chunks, c ≠ []) (hL : L < chunks.flatten.length) :
+    ∃ u tail, zlibWalkStream L chunks 0 [] = some (chunks.flatten.take L, u) ∧
+      chunks.flatten = chunks.flatten.take L ++ u ++ tail ∧ u ≠ [] := by
+  have := zlibWalkStream_spec L chunks 0 [] hne rfl (Nat.zero_le _) (by simpa using hL)
+  simpa using this
+
+example : zlibWalkStream 4 [[1, 2], [3, 4], [9, 8]] 0 [] = some ([1, 2, 3, 4], [9, 8]) := by decide
+
 /-! ## 5. pack index: write → load → lookup is sound and complete (versions 2, 3 and 1) -/
 
 /-- **Index v2 round trip.**  For every strictly sorted (hence duplicate-free) entry list with names of the
